@@ -235,10 +235,22 @@ def gen_problem(rng, with_transform):
     if rng.random() < 0.3:
         fac = rng.choice([1e-10, 1e-6, 1e-3, 1e4, 1e8])
         coeffs = [["scaled", fac, c] for c in coeffs]
+    # the solution itself may be tiny or large (a density tail of 1e-9, a charge of 1e6): relative accuracy is what the
+    # solver tolerances promise, so every term is multiplied by `amp` and errors are measured relative to it
+    amp = 1.0 if rng.random() < 0.75 else rng.choice([1e-9, 1e-6, 1e5])
+    if amp != 1.0 and order == 1 and rng.random() < 0.7:
+        # a strictly positive solution (sum of positive exponentials): purely relative tolerances are well-posed for it
+        terms = [["exp", round(rng.uniform(0.5, 1.5), 3), round(rng.uniform(-1.2, 1.2), 3)] for _ in range(rng.randint(1, 2))]
+    if amp != 1.0:
+        for t in terms:
+            if t[0] == "poly":
+                t[1] = [c * amp for c in t[1]]
+            else:
+                t[1] = t[1] * amp
     bc = [list(c) for c in bc]
     rng.shuffle(bc)  # the order in which the caller lists the conditions is arbitrary (upper end first, interleaved, ...)
     alts = gen_alternates(rng, tspec, rng.choice([0, 1, 2, 2])) if tspec is not None and tspec[0] != "identity" else []
-    return {"order": order, "a": round(a, 4), "b": round(b, 4), "terms": terms, "coeffs": coeffs, "bc": bc, "tspec": tspec, "alts": alts,
+    return {"order": order, "a": round(a, 4), "b": round(b, 4), "terms": terms, "coeffs": coeffs, "bc": bc, "tspec": tspec, "alts": alts, "amp": amp,
             "n": rng.randint(8, 30), "tol": rng.choice([1e-4, 1e-6, 1e-6])}
 
 
